@@ -14,6 +14,6 @@ func newRng(seed uint64, suite string) *Rng {
 	return &Rng{rand.New(rand.NewPCG(seed, h.Sum64()))}
 }
 
-func (r *Rng) pick(l []string) string { return l[r.IntN(len(l))] }
+func (r *Rng) pick(l []string) string   { return l[r.IntN(len(l))] }
 func (r *Rng) chance(num, den int) bool { return r.IntN(den) < num }
-func (r *Rng) bool() bool              { return r.IntN(2) == 0 }
+func (r *Rng) bool() bool               { return r.IntN(2) == 0 }
